@@ -189,6 +189,16 @@ func vfRunReco(t *testing.T, tr *vfTrace, x vfReco) bool {
 	})
 }
 
+// vfRecoBase: initial TSNs of the two sides. The passive side always starts within a few TSNs of the 32-bit wrap; in one
+// scenario of three the closing side does instead, so that the last TSN named by its reset request lies beyond the wrap
+// while the data below it is still missing at the peer.
+func vfRecoBase(k int) [2]uint32 {
+	if k%3 == 2 {
+		return [2]uint32{uint32(0) - uint32(1+k%5), uint32(k * 104729)}
+	}
+	return [2]uint32{uint32(k * 104729), uint32(0) - uint32(k%7)}
+}
+
 func init() {
 	vfModes["reconfig"] = func(t *testing.T) {
 		shard, nshards := vfEnvInt("VF_SHARD", 0), vfEnvInt("VF_NSHARDS", 1)
@@ -272,7 +282,7 @@ func init() {
 						continue
 					}
 					x := vfReco{Label: fmt.Sprintf("reconfig-s%d-m%d-f%d#%d", nstr, nmsg, si, k), NStr: nstr, NMsg: nmsg, Faults: fs, Cycles: 2,
-						IL: k%2 == 0, Unord: k%3 == 0, BWrites: k%4 == 0, Big: k%5 == 0, PR: k%5 != 0 && k%7 == 3, Seq: k%3 == 1 && nstr > 1, Base: [2]uint32{uint32(k * 104729), uint32(0) - uint32(k%7)}}
+						IL: k%2 == 0, Unord: k%3 == 0, BWrites: k%4 == 0, Big: k%5 == 0, PR: k%5 != 0 && k%7 == 3, Seq: k%3 == 1 && nstr > 1, Base: vfRecoBase(k)}
 					if vfRunReco(t, tr, x) {
 						t.Fatalf("scenario %s hung", x.Label)
 					}
